@@ -58,6 +58,15 @@ func NewConnectionStore(ctx connectionProvider) (*ConnectionStoreImpl, error) {
 
 // saveDID saves a DID, indexed using the given public key.
 func (c *ConnectionStoreImpl) saveDID(did, key string) error {
+	// a key that is already linked to a DID stays linked to it: inbound messages are attributed to a connection by
+	// their sender key, so another party's document listing that key must not take the key over.
+	existing, err := c.GetDID(key)
+	if err == nil && existing != did {
+		return fmt.Errorf("key is already linked to another DID")
+	} else if err != nil && !errors.Is(err, ErrNotFound) {
+		return err
+	}
+
 	data := didRecord{
 		DID: did,
 	}
